@@ -1214,10 +1214,11 @@ func (c *Canonicalizer) NormalizeOperand(v ssa.Value, context ssa.Instruction) s
 		if operand.Value == nil {
 			return fmt.Sprintf("const(%s:nil)", sanitizeType(operand.Type()))
 		}
+		// The type is part of a constant's meaning (int8 vs uint8 arithmetic, any(int64(1)) vs any(int32(1))).
 		if operand.Value.Kind() == constant.String {
-			return fmt.Sprintf("const(%q)", constant.StringVal(operand.Value))
+			return fmt.Sprintf("const(%q):%s", constant.StringVal(operand.Value), sanitizeType(operand.Type()))
 		}
-		return fmt.Sprintf("const(%s)", operand.Value.ExactString())
+		return fmt.Sprintf("const(%s):%s", operand.Value.ExactString(), sanitizeType(operand.Type()))
 	case *ssa.Global:
 		pkgPath := ""
 		if operand.Pkg != nil && operand.Pkg.Pkg != nil {
